@@ -64,13 +64,23 @@ def classify_tr(f, case):
 def h_transpose(ctx, case):
     """transpose_sparse_matrix_on_disk on every pattern, symbolic values,
     every block size, optional data array, optional minor-index slice"""
+    from symx.npshim import RANGE_CHECK
     nr, nc = case['shape']
     env = Env(ctx)
-    dense = dense_from_bits(ctx, 'x', nr, nc)
+    if case.get('pattern') == 'ends':
+        # a wide matrix (index types change at 256 / 65536 columns):
+        # entries in the first and the last column only
+        dense = [[(ctx.real(f"x[{r},{c}]") if c in (0, nc - 1) else None)
+                  for c in range(nc)] for r in range(nr)]
+    else:
+        dense = dense_from_bits(ctx, 'x', nr, nc)
     # CSC input: major = columns, minor indices = rows
     indptr, indices, data = to_csc(dense)
     use_data = ctx.flag('use_data') if case.get('data', 'both') == 'both' \
         else case['data']
+    # index arrays are stored in the narrowest integer type the code
+    # thinks sufficient: every store must fit it
+    RANGE_CHECK['on'] = ctx.mode == 'sym'
     sl = None
     if case.get('slice'):
         lo = ctx.choice('slice_lo', nr)
@@ -92,6 +102,8 @@ def h_transpose(ctx, case):
     except Exception as e:
         ctx.exception(e)
         return 'EXC ' + type(e).__name__
+    finally:
+        RANGE_CHECK['on'] = False
     ctx.reach('transposed')
     r0, r1 = sl if sl is not None else (0, nr)
     with env.File(out, 'r') as f:
@@ -507,8 +519,12 @@ HARNESSES = [
     Harness('transpose_by_way_of_disk', h_by_way_of_disk, **BY_WAY),
     Harness('transpose_on_disk', h_transpose, setup=setup_tr,
             cases=[{'shape': [2, 3]}, {'shape': [3, 2]},
-                   {'shape': [2, 2], 'slice': True}],
-            thorough_cases=[{'shape': [2, 3]}, {'shape': [3, 2]},
+                   {'shape': [2, 2], 'slice': True}]
+            + [{'shape': [1, n], 'pattern': 'ends', 'data': True}
+               for n in (255, 256, 257)],
+            thorough_cases=[{'shape': [1, n], 'pattern': 'ends',
+                             'data': True} for n in (65535, 65536, 65537)]
+            + [{'shape': [2, 3]}, {'shape': [3, 2]},
                             {'shape': [3, 3], 'data': True},
                             {'shape': [2, 3], 'slice': True},
                             {'shape': [3, 2], 'slice': True},
